@@ -166,12 +166,14 @@ def parse_line(line):
 
 def collect(res):
     """driver result list -> dict"""
-    d = dict(X={}, B={}, HA={}, HP={}, DIAG={}, status=None, LV=None, COARSE=None, err="")
+    d = dict(X={}, B={}, HA={}, HP={}, DIAG={}, status=None, LV=None, COARSE=None, err="", SOLVE=None, XF=None)
     for key, toks in res or []:
         if key in ("X", "B"): d[key][int(toks[0])] = toks[1:]
         elif key in ("HA", "HP"): d[key][int(toks[0])] = toks[1:]
         elif key == "DIAG": d["DIAG"][int(toks[0])] = int(toks[1])
         elif key == "LV": d["LV"] = [int(x) for x in toks]
+        elif key == "SOLVE": d["SOLVE"] = (int(toks[0]), [nums.parse_num(x) for x in toks[1:]])
+        elif key == "XF": d["XF"] = [nums.parse_num(x) for x in toks]
         elif key == "COARSE": d["COARSE"] = [nums.parse_num(x) for x in toks]
         elif key in ("DONE", "ERR", "CRASH"): d["status"] = key; d["err"] = " ".join(toks)
     return d
@@ -223,6 +225,32 @@ def judge_energy(ctx, c, d):
                        % (k + 1, float(E[k + 1]), k, float(E[k]), d["LV"], c["coarsen"], c["interp"], c["theta"], c["max_coarse"]),
                        case=c["line"], extra=dict(energies=[float(e) for e in E]))
             return False
+    # the solve loop: raptor's own residual history must stay finite and below the bound the theorem implies,
+    # ||r_k||_2^2 = e^T A^2 e <= lambda_max(A) ||e_k||_A^2 <= G ||e_0||_A^2 (G = Gershgorin bound), and the final
+    # iterate must not be worse than the start in the energy norm
+    if d["SOLVE"] is not None and d["XF"] is not None:
+        it, hist = d["SOLVE"]
+        G = max(sum(abs(a) for a in r.values()) for r in c["rows"])
+        b2 = sum(a * a for a in c["b"])
+        bound = float(G * E[0]) * (1 + 1e-6) + float(floor) + 1e-300
+        scale = float(b2) if float(b2) ** 0.5 > 1e-16 else 1.0     # raptor divides by ||b|| unless it is ~0
+        for kk, rk in enumerate(hist):
+            if isinstance(rk, str) or float(rk) ** 2 * scale > bound:
+                ctx.signal("O", sigbase + ":residual_blowup", "solve(): relative residual %s at iteration %d exceeds the bound "
+                           "sqrt(G E_0)/||b|| = %.6g implied by energy-norm monotonicity (history %s)"
+                           % (rk if isinstance(rk, str) else float(rk), kk, (bound / scale) ** 0.5,
+                              [r if isinstance(r, str) else float(r) for r in hist][:8]), case=c["line"])
+                return False
+        if it > 30 or len(hist) != it + 1:
+            ctx.signal("O", sigbase + ":iteration_limit", "solve() reports %d iterations with %d residuals (limit 30)" % (it, len(hist)), case=c["line"])
+            return False
+        if any(isinstance(a, str) for a in d["XF"]):
+            ctx.signal("O", sigbase + ":nonfinite", "solve() returned a non-finite iterate", case=c["line"]); return False
+        EF = en.of([xs[j] - d["XF"][j] for j in range(c["n"])])
+        if EF > E[0] * (1 + REL_SLACK) + floor:
+            ctx.signal("O", sigbase + ":energy_increase", "solve(): final ||x*-x||_A^2 = %.17g > initial %.17g after %d cycles"
+                       % (float(EF), float(E[0]), it), case=c["line"]); return False
+        ctx.count("solve_converged" if it < 30 else "solve_hit_limit")
     if d["LV"][0] > 1 and E[0] > floor:
         ctx.nontrivial.add(c["line"].split(" ", 1)[1][:4000])
     if E[0] > 0 and E[-1] < E[0]: ctx.count("strict_decrease")
